@@ -294,7 +294,7 @@ func mapOrder(w *core.World, r *core.Report) {
 		if f.Pkg == nil {
 			return false
 		}
-		p := f.Pkg.Pkg.Path()
+		p := core.PkgPath(f)
 		return p == core.Module+"/pkg/utils" || p == core.Module+"/pkg/tree" || p == core.Module+"/pkg/datastore/target/netconf" || p == core.Module+"/pkg/datastore/clients/schema" || p == core.Module+"/pkg/datastore/types"
 	}
 	for _, f := range w.RepoFns {
@@ -409,7 +409,7 @@ func ruleSEP(w *core.World, r *core.Report) {
 		if f.Pkg == nil {
 			continue
 		}
-		pp := f.Pkg.Pkg.Path()
+		pp := core.PkgPath(f)
 		if !(strings.HasPrefix(pp, core.Module+"/pkg/tree") || strings.HasPrefix(pp, core.Module+"/pkg/datastore")) || strings.Contains(pp, "/target") {
 			continue
 		}
